@@ -234,6 +234,26 @@ func newLiveEnv() *liveEnv {
 		case <-time.After(handlerCtxWait):
 		}
 	})
+	// a peer that answers a unary gRPC / gRPC-Web call with its response message at once and
+	// then takes its time before ending the response (slow trailers)
+	mux.HandleFunc("/verif.Svc/StallAfterMessage", func(w http.ResponseWriter, req *http.Request) {
+		o := e.get(req.Header.Get("X-Call"))
+		defer close(o.returned)
+		_, _ = io.Copy(io.Discard, req.Body)
+		w.Header().Set("Content-Type", req.Header.Get("Content-Type"))
+		w.WriteHeader(200)
+		_, _ = w.Write(h.Frame(0, []byte("ok")))
+		if f, ok := w.(http.Flusher); ok {
+			f.Flush()
+		}
+		select {
+		case <-req.Context().Done():
+			o.mu.Lock()
+			o.CtxDone, o.CtxErr = true, req.Context().Err().Error()
+			o.mu.Unlock()
+		case <-time.After(handlerCtxWait):
+		}
+	})
 	e.srv1 = httptest.NewUnstartedServer(mux)
 	e.srv1.Start()
 	e.srv2 = httptest.NewUnstartedServer(mux)
@@ -1060,6 +1080,18 @@ func liveFamily(r *h.Run, rng *h.Rng, fam string, cancelMode bool) {
 			}
 		}
 	}
+	// the response message of a unary call has arrived, its end has not
+	for _, proto := range []string{"grpc", "grpcweb"} {
+		for _, h2 := range []bool{false, true} {
+			if proto == "grpc" && !h2 {
+				continue // (trailers need HTTP/2 here)
+			}
+			e.liveUnaryStall(r, fam, proto, h2, rng.Bool())
+			if r.Thorough() {
+				e.liveUnaryStall(r, fam, proto, h2, rng.Bool())
+			}
+		}
+	}
 	// a handler that returns the error of a context of its own
 	for _, proto := range protos {
 		for _, h2 := range []bool{false, true} {
@@ -1137,6 +1169,43 @@ func (e *liveEnv) liveRejected(r *h.Run, fam, kind, proto string, h2 bool) {
 	}
 	r.Sample(fam, c.input())
 	c.afterCall(true)
+}
+
+// liveUnaryStall: a unary call whose response message has arrived; the context ends while the
+// call waits for the end of the response.
+func (e *liveEnv) liveUnaryStall(r *h.Run, fam, proto string, h2, deadline bool) {
+	srv := e.srv1
+	if h2 {
+		srv = e.srv2
+	}
+	c := &liveCall{r: r, mode: "C15", fam: fam, kind: "unary", proto: proto, h2: h2, prog: hprog{WaitCtx: true}}
+	c.id = fmt.Sprint(e.seq.Add(1))
+	c.obs = e.get(c.id)
+	c.cc = &countingClient{inner: srv.Client()}
+	client := connect.NewClient[h.Raw, h.Raw](c.cc, srv.URL+"/verif.Svc/StallAfterMessage", liveClientOpts(proto)...)
+	want := connect.CodeCanceled.String()
+	var ctx context.Context
+	var cancel context.CancelFunc
+	if deadline {
+		want = connect.CodeDeadlineExceeded.String()
+		ctx, cancel = context.WithTimeout(context.Background(), 200*time.Millisecond)
+	} else {
+		ctx, cancel = context.WithCancel(context.Background())
+		time.AfterFunc(200*time.Millisecond, cancel)
+	}
+	defer cancel()
+	r.Eval(fam, fmt.Sprintf("unary-stall/%s/%v/%v", proto, h2, deadline))
+	c.log = append(c.log, "[the peer sends the response message at once and stalls before ending the response; the context ends meanwhile]")
+	req := connect.NewRequest(bigMsg(16))
+	req.Header().Set("X-Call", c.id)
+	err, ok := c.step("CallUnary", func() error { _, err := client.CallUnary(ctx, req); return err })
+	if !ok {
+		return
+	}
+	if got := liveCls(err); got != want {
+		c.r.Fail(h.Failure{Key: "cancel/code/CallUnary", Family: fam, What: "a unary call whose context ended while it waited for the end of the response returned " + got, Input: c.input(), Expected: want, Actual: got})
+	}
+	r.Sample(fam, c.input())
 }
 
 // liveEarlyHeaders: the peer has sent its response headers while the request
